@@ -5,8 +5,11 @@
 (*         to the caller), wrote (bytes written back), consumed (bytes taken from the           *)
 (*         connection; len(data) - consumed are left unread), panic, hpok (the result, when it   *)
 (*         is a single "host:port" string, is one that net.SplitHostPort can take apart).        *)
-(*   Udp : data (the datagram), ok, host, ip, port, payload, panic, rt (the implementation's      *)
-(*         parse(build(parse(data)))).                                                            *)
+(*   Udp : data (the datagram), ok, host, ip, port, payload, panic, rebuilt (the implementation's  *)
+(*         build(parse(data))), rt (its parse(build(parse(data)))), nip (the IP address the         *)
+(*         datagram's NAME spells according to net.ParseIP, empty when it is no IP literal).         *)
+(*         A re-encoded header that differs from the datagram is judged as a datagram of its own.    *)
+(* Every violation detail carries the address VALUE CLASS (Socks5Ref!ValClass) of the input.         *)
 (* The judge recomputes the byte-level reference (Socks5Ref) on `data` and demands what the RFC   *)
 (* mandates (HsViol / UdpViol); where the RFC leaves the reaction open it demands rejection       *)
 (* without result only.  `want` is the outcome class the generating model (Socks5.tla) fixed for   *)
@@ -26,7 +29,8 @@ TrHs ==
          cls == HsClass(r)
          o   == [ok |-> Ev.ok, cmd |-> Ev.cmd, host |-> Ev.host, ip |-> Ev.ip, port |-> Ev.port,
                  wrote |-> Ev.wrote, consumed |-> Ev.consumed, panic |-> Ev.panic]
-         d   == Ev.target \o ":" \o Ev.chunk \o ":" \o cls \o ":got=" \o Got
+         val == IF r.result THEN ":val=" \o ValClass(r.q.atyp, r.q.addr) ELSE ""
+         d   == Ev.target \o ":" \o Ev.chunk \o ":" \o cls \o val \o ":got=" \o Got
          \* a result handed on as one "host:port" string must be one that net.SplitHostPort takes apart again
          \* (names containing '[' or ']' have no such form and are not demanded)
          form == IF r.result /\ Ev.ok /\ Profile(Ev.target).joined /\ ~Ev.hpok
@@ -42,8 +46,9 @@ TrUdp ==
          u   == RefUdp(dg)
          cls == UdpClass(u, dg)
          o   == [ok |-> Ev.ok, host |-> Ev.host, ip |-> Ev.ip, port |-> Ev.port, payload |-> Ev.payload,
-                 panic |-> Ev.panic, rt |-> Ev.rt]
-         d   == "udp:" \o cls \o (IF Len(dg) < 10 THEN ":len<10" ELSE "") \o ":got=" \o Got
+                 panic |-> Ev.panic, rt |-> Ev.rt, rebuilt |-> Ev.rebuilt, nip |-> Ev.nip]
+         val == IF u.st = "result" THEN ":val=" \o ValClass(u.atyp, u.addr) ELSE ""
+         d   == "udp:" \o cls \o val \o (IF Len(dg) < 10 THEN ":len<10" ELSE "") \o ":got=" \o Got
      IN /\ Assert(Ev.want = "" \/ Ev.want = cls, <<"model and reference disagree on case class", Ev.want, cls, Ev.tr>>)
         /\ viol' = viol \cup {V(cl, d) : cl \in UdpViol(u, dg, o)}
   /\ l' = l + 1
@@ -65,7 +70,9 @@ TrRelay ==
          tun(i) == {j \in DOMAIN F : ForwardIs(U[i], S[i], F[j])}
          qry(i) == {q \in DOMAIN D : QueryOf(U[i], S[i], D[q])}
          cnt(i) == Cardinality(tun(i)) + Cardinality(qry(i))
+         NI == Ev.sentnip                 \* per sent datagram: the IP its NAME spells (net.ParseIP), else empty
          pre(i) == "relay:" \o Ev.shape \o ":i=" \o ToString(i) \o ":" \o UdpClass(U[i], S[i])
+                   \o (IF U[i].st = "result" THEN ":val=" \o ValClass(U[i].atyp, U[i].addr) ELSE "")
          lost == {V("UdpRelayPayload", pre(i)) : i \in {x \in DOMAIN S : U[x].st = "result" /\ ~U[x].lenient /\ cnt(x) = 0}}
          dup  == {V("UdpRelayDup", pre(i)) : i \in {x \in DOMAIN S : cnt(x) > 1}}
          srv  == {V("UdpRelayDnsServer", pre(i)) : i \in {x \in DOMAIN S : \E q \in qry(x) : ~ServerOK(U[x], Ev.vdns, D[q])}}
@@ -76,9 +83,9 @@ TrRelay ==
                     : q \in {y \in DOMAIN D : \A i \in DOMAIN S : ~QueryOf(U[i], S[i], D[y])}}
          \* replies: one per injected tunnel response, one per answered DNS query, headed by the re-encoded header
          rcnt(k) == Cardinality({j \in DOMAIN G : ReplyIs(G[j], E[k])})
-         dcnt(i, q) == Cardinality({j \in DOMAIN G : ReplyTo(G[j], U[i], D[q].resp)})
+         dcnt(i, q) == Cardinality({j \in DOMAIN G : ReplyTo(G[j], U[i], NI[i], D[q].resp)})
          owned(j) == \/ \E k \in DOMAIN E : ReplyIs(G[j], E[k])
-                     \/ \E i \in DOMAIN S : \E q \in qry(i) : ReplyTo(G[j], U[i], D[q].resp)
+                     \/ \E i \in DOMAIN S : \E q \in qry(i) : ReplyTo(G[j], U[i], NI[i], D[q].resp)
          rep  == {V("UdpRelayReply", "relay:" \o Ev.shape \o ":resp=" \o ToString(k) \o ":matching-replies=" \o ToString(rcnt(k)))
                     : k \in {x \in DOMAIN E : rcnt(x) # 1}}
               \cup {V("UdpRelayReply", pre(i) \o ":dns-reply:matching-replies=" \o ToString(dcnt(i, q)))
